@@ -165,6 +165,9 @@ def reference_grads(cfg, rr, dims):
             elif op == 's':
                 raw = rr.res[0]['ops'][i]['raw']
                 out[i] = ref.step(raw)
+            elif op == 'v1':
+                out[('factors', i)] = ([None if a is None else a.clone() for a in ref.A],
+                                       [None if g is None else g.clone() for g in ref.G])
             elif op == 'r':
                 ref.reset_batch()
             elif op == 'k':
